@@ -144,6 +144,9 @@ def run(ctx):
                 strs.append(q + body + q)
                 strs.append(q + body)
     groups.append(("string", strs, (True,), "xg", "always"))
+    for k, v in sc.boundary_family().items():
+        # line directives above 1<<30 are a finding-set dimension: compared where go_like holds
+        groups.append(("boundary-" + k, v, (True, False), "xg", "go_like" if k == "line" else "always"))
     seqs, shapes = [], {}
     for _ in range(ctx.n(5000, 200000)):
         s, sh = go_sequence(ctx.rng)
@@ -170,7 +173,7 @@ def run(ctx):
                     meta.append((name, how))
     impl, model = R.correspond("scan(XGo)~scanner.Scan & scan(Go)~go/scanner.Scan", cases)
     # the hypothesis of C16_xgo_eq_go_on_go_lexemes, evaluated by the extracted model
-    gidx = [i for i, c in enumerate(cases) if c[0] == "g" and meta[i][0] not in ("numeric", "string")]
+    gidx = [i for i, c in enumerate(cases) if c[0] == "g" and meta[i][0] not in ("numeric", "string", "boundary-escape", "boundary-digit")]
     pred = dict(zip(gidx, R.run_pred(["x" + cases[i][1:] for i in gidx])))
     stats = {"compared": 0, "skipped_extension": 0, "skipped_ellipsis_dimension": 0, "go_like": 0, "go_like_compared": 0}
     per_group, gl_group, verd = {}, {}, {}
@@ -211,7 +214,9 @@ def run(ctx):
     ctx.cover(evaluations=len(cases), distinct_nontrivial=len(set(c[3:] for c in cases)),
               samples=[{"case": cases[k], "impl": impl[k][0][:160], "verdict": impl[k][1]} for k in (41, 2 * len(nums) + 201, len(cases) - 2 * len(FINDING_SET) - 9, len(cases) - 3)],
               rule="exhaustive: %d numeric spellings of <=%d symbols over %s; %d string/char/raw spellings (<=2 atoms of %d escape forms, closed "
-                   "and unclosed); token-level: all %d sequences of <=%d lexemes over ( ) ; ... ! newline a blank and all %d sequences of <=3 "
+                   "and unclosed); the deterministic boundary-value family (every numeric comparison of the scanners: escapes around D7FF/D800/DFFF/E000/"
+                   "10FFFF/110000/377/400 in rune, string, c\"/py\" literals in both hex cases, UTF-8 boundary/overlong/surrogate encodings and BOM "
+                   "placement, digit/radix/letter range edges after every number prefix, //line numbers around 0, 1<<30, 1<<63, 1<<64); token-level: all %d sequences of <=%d lexemes over ( ) ; ... ! newline a blank and all %d sequences of <=3 "
                    "lexemes over a %d-lexeme alphabet (state carried across tokens); %d seeded Go-lexeme sequences (safe generator: no XGo "
                    "extension, nothing of the finding-set dimensions); %d seeded stateful sequences of 4-12 lexemes; %d mutated/extended "
                    "sequences; the fixed finding set (%d inputs). K-diff on every case (both dialects for numeric/string/malformed, go/scanner "
